@@ -402,6 +402,19 @@ class Engine:
                 raise OutOfSubset("unaryop", e)
         return out
 
+    def e_BinOp(self, e, st):
+        out = []
+        for s, vs in self.eval_seq([e.left, e.right], st):
+            a, b = vs
+            if isinstance(a, C) and isinstance(b, C) and isinstance(e.op, (ast.Add, ast.Sub, ast.Mult)):
+                out.append((s, C({ast.Add: lambda x, y: x + y, ast.Sub: lambda x, y: x - y, ast.Mult: lambda x, y: x * y}[type(e.op)](a.v, b.v))))
+            elif isinstance(e.op, (ast.Add, ast.Sub)):
+                x, y = self.as_int(a), self.as_int(b)
+                out.append((s, ZV(x + y if isinstance(e.op, ast.Add) else x - y, 'int')))
+            else:
+                raise OutOfSubset("binary operator", e)
+        return out
+
     def e_IfExp(self, e, st):
         out = []
         for s, c in self.eval(e.test, st):
